@@ -78,14 +78,15 @@ func (c *ctx) clone() *ctx {
 
 // spec of one type to translate
 type TypeSpec struct {
-	Dir     string
-	Recv    string            // type name
-	Locks   map[string]int    // field name -> lock index
-	Vars    map[string]int    // designated variable -> var index
-	Fields  map[string]string // selector suffix after the receiver -> variable name ("session" -> "session")
-	ConnSel []string          // selector chains (after the receiver) denoting the connection whose use is "wire"
-	WireOps map[string]string // method name on the embedded/underlying conn -> variable accessed (ws: WriteMessage -> wswrite)
-	Out     string            // Lean def name
+	Dir       string
+	Recv      string            // type name
+	Locks     map[string]int    // field name -> lock index
+	Vars      map[string]int    // designated variable -> var index
+	Fields    map[string]string // selector suffix after the receiver -> variable name ("session" -> "session")
+	ConnSel   []string          // selector chains (after the receiver) denoting the connection whose use is "wire"
+	GateCalls map[string]string // "<function>:<method>(<arg>)" -> gate variable accessed there
+	WireOps   map[string]string // method name on the embedded/underlying conn -> variable accessed (ws: WriteMessage -> wswrite)
+	Out       string            // Lean def name
 }
 
 type T struct {
@@ -199,6 +200,13 @@ func (t *T) exprEffects(e ast.Node, lhs bool) []effect {
 				out = append(out, effect{op: op, arg: parts[len(parts)-2], src: t.src(x)})
 			case len(parts) == 2 && parts[0] == t.recv && t.methods[t.spec.Recv+"."+last] != nil:
 				m := t.methods[t.spec.Recv+"."+last]
+				// admission gates: a designated test / mark call inside a designated function is an access
+				// to a gate variable of its own (ws: the Listening test-and-set in Listen)
+				if len(x.Args) == 1 {
+					if v := t.spec.GateCalls[t.curFn+":"+last+"("+chain(x.Args[0])+")"]; v != "" {
+						out = append(out, effect{op: "write", arg: v, src: t.src(x)})
+					}
+				}
 				out = append(out, effect{inline: m, inlineRecv: recvNameOf(m), src: t.src(x)})
 			case len(parts) >= 2 && t.spec.WireOps[last] != "" && isUnderlying(parts, t.recv):
 				// a call on the underlying connection object (ws: wsc.Conn.WriteMessage)
@@ -923,9 +931,11 @@ func main() {
 			Vars:   map[string]int{"session": 0, "err": 3},
 			Fields: map[string]string{"session": "session", "err": "err"}},
 		{Dir: "fluent/client/ws", Recv: "connection", Out: "wsConn",
-			Locks:   map[string]int{"closeLock": 3, "listenLock": 4, "writeLock": 5, "stateLock": 6},
-			Vars:    map[string]int{"connState": 4, "wswrite": 5, "wsread": 6},
-			Fields:  map[string]string{"connState": "connState"},
+			Locks: map[string]int{"closeLock": 3, "listenLock": 4, "writeLock": 5, "stateLock": 6},
+			Vars:  map[string]int{"connState": 4, "wswrite": 5, "wsread": 6, "listenGate": 7},
+			GateCalls: map[string]string{"Listen:hasConnState(ConnStateListening)": "listenGate",
+				"Listen:setConnState(ConnStateListening)": "listenGate"},
+			Fields: map[string]string{"connState": "connState"},
 			// every method of the underlying websocket connection that writes frames / reads frames
 			WireOps: map[string]string{"WriteMessage": "wswrite", "NextWriter": "wswrite", "WriteControl": "wswrite",
 				"WritePreparedMessage": "wswrite", "WriteJSON": "wswrite",
